@@ -10,7 +10,7 @@ SHARDS = 16
 RULE = ("scripted bus histories for Proxy::receive_signal/receive_all_signals over a real bus connection (fake bus in-process): "
         "the replies of the stream's creation (AddMatch NameOwnerChanged, GetNameOwner ok/error, AddMatch signal rule) interleaved in "
         "every order with every sequence of <= 2 events over {owner signal, driver NameOwnerChanged change / release / acquire, forged "
-        "NameOwnerChanged}, followed by every sequence of <= 2 (quick) / <= 3 (thorough) events over {signal from owner / former "
+        "NameOwnerChanged}, followed by every sequence of <= 2 (<= 1 after two creation-time events; thorough: 3 / 2) events over {signal from owner / former "
         "owner / stranger, other member, driver change / release / acquire, forged notification}, under three batchings (one "
         "message at a time; as much as possible at once; reply together with what follows it); random histories of "
         "up to 12 events over 30 kinds (no sender, wrong path / interface / name / body, forged notifications on the driver's and on "
@@ -63,11 +63,12 @@ def gen(rng, tier):
     pre_pool = [A, Cn, Dn, En, Fg]
     post_max = 2 if quick else 3
     posts = [list(p) for n in range(0, post_max + 1) for p in itertools.product(POOL, repeat=n)]
+    posts1 = [p for p in posts if len(p) <= post_max - 1]
     k = 0
     for n in range(0, 3):
         for evs in itertools.product(pre_pool, repeat=n):
             for hist in g.interleavings(SETUP_W, list(evs)):
-                for post in posts:
+                for post in (posts if n <= 1 else posts1):
                     h = g.fix_lookup(hist + post, 1)
                     k += 1
                     yield case("w", 0, 0, g.batch_singletons(h))
@@ -80,7 +81,7 @@ def gen(rng, tier):
             yield case("w", 0, 0, g.batch_singletons(h))
             yield case("w", 0, 0, g.batch_maximal(h))
     # 2. random longer histories
-    count = 12000 if quick else 150000
+    count = 8000 if quick else 150000
     for i in range(count):
         r = rng.random()
         dest, pi, pm = "w", 0, 0
